@@ -38,7 +38,10 @@ PI = Fraction(math.pi)
 TWO_PI = 2 * PI
 GRIDS = {'g8x4': dict(longitude_wavenumbers=3, total_wavenumbers=4, longitude_nodes=8, latitude_nodes=4),
          'g12x6': dict(longitude_wavenumbers=4, total_wavenumbers=5, longitude_nodes=12, latitude_nodes=6),
-         'g16x8': dict(longitude_wavenumbers=6, total_wavenumbers=7, longitude_nodes=16, latitude_nodes=8)}
+         'g16x8': dict(longitude_wavenumbers=6, total_wavenumbers=7, longitude_nodes=16, latitude_nodes=8),
+         # grids whose first longitude is not 0: the flux must be evaluated at the grid's ACTUAL nodes
+         'g12x6o': dict(longitude_wavenumbers=4, total_wavenumbers=5, longitude_nodes=12, latitude_nodes=6, longitude_offset=0.7),
+         'g8x4w': dict(longitude_wavenumbers=3, total_wavenumbers=4, longitude_nodes=8, latitude_nodes=4, longitude_offset=-3.0)}
 REFS = {'wb': (1979, 1, 1, 0, 0), 'leap_end': (2000, 12, 31, 23, 59), 'feb29': (1980, 2, 29, 12, 30), 'mid': (2015, 7, 4, 6, 7)}
 
 _jax = None
@@ -120,7 +123,7 @@ def generate(ctx):
         yield 'flux', {'op': op, 'syn': syn, 'lons': lons, 'lats': lats, 'S': S, 'V': V,
                        'n': int(rng.integers(-5, 6)), 'm': int(rng.integers(-400, 401))}
     # class level
-    gl = ['g8x4', 'g12x6'] if quick else ['g8x4', 'g12x6', 'g16x8', 'T21']
+    gl = ['g8x4', 'g12x6', 'g12x6o', 'g8x4w'] if quick else ['g8x4', 'g12x6', 'g16x8', 'T21', 'g12x6o', 'g8x4w']
     refs = list(REFS)
     for gi, g in enumerate(gl):
         for r in range(2 if quick else 4):
@@ -280,7 +283,12 @@ def r_solar(ctx, a):
     ctx.corr('time_to_orbital_time (mod 2 pi)', _circ([io, is_], [float(m8[2]), float(m8[3])]), m8[2:4], scale=raw_scale)
     ctx.oracle('reduced phases lie in [0, 2 pi]', bool(-1e-9 <= io <= 2 * np.pi + 1e-9 and -1e-9 <= is_ <= 2 * np.pi + 1e-9), [io, is_])
     S, V = float(sr.total_solar_irradiance), float(sr.solar_irradiance_variation)
-    lons = np.asarray(sr.lon)[:, 0]; lats = np.asarray(sr.lat)[0, :]
+    # node coordinates are taken from the GRID (not from the SolarRadiation object under test)
+    g_ = grid_of(a['grid'])
+    lons = np.asarray(g_.longitudes, dtype=np.float64); lats = np.asarray(g_.latitudes, dtype=np.float64)
+    ctx.oracle('SolarRadiation evaluates the flux at the grid nodes (longitude offset included)',
+               bool(np.allclose(np.asarray(sr.lon)[:, 0], lons, rtol=0, atol=1e-12) and np.allclose(np.asarray(sr.lat)[0, :], lats, rtol=0, atol=1e-12)),
+               {'sr_lon0': float(np.asarray(sr.lon)[0, 0]), 'grid_lon0': float(lons[0])})
     if a['grid'].startswith('T'):      # large grid: subsample the model comparison
         li = np.arange(0, lons.size, 7); lj = np.arange(0, lats.size, 5)
     else:
